@@ -240,6 +240,22 @@ theorem client_returns_pv_head (basis : Array W) (search : Nat → Pos → Optio
     getMove_live basis search c pl p rem tc hp hrange hlong hready.alive hready.unread hready.game hready.size hready.mm
   exact ⟨tps, p', h1, h2, h4, h5⟩
 
+/-- **A duration that cannot be expressed in milliseconds makes the call fail cleanly.**  On a running engine
+of the position's size, if `TooShort rem tc` the call returns the error "Timeout too short" after having
+written the `position` line only: no `go` is sent (so the engine is never asked to think without the limit
+the caller wanted), the engine holds the new position and keeps waiting, nothing else about the connection
+changes. -/
+theorem client_tooShort_returns_error (basis : Array W) (search : Nat → Pos → Option Int → SearchRes)
+    (c : Conn EngSt) (pl : Player) (p : Pos) (rem : Option Int) (tc : Option TimeControl)
+    (hp : tpsHyp basis p = true) (hshort : TooShort rem (tc.getD {}))
+    (halive : c.alive = true) (hgame : pl.gameid = c.gameid) (hsize : c.eng.st.size = p.cfg.size) :
+    ∃ tps p', TPS.formatTPS p = .ok tps ∧ TPS.parseTPS basis tps = .ok p' ∧
+      teiGetMove (serverPeer (realEnv basis search)) c pl p rem tc
+        = ({ c with eng := { st := { c.eng.st with pos := some p' }, k := c.eng.k + 1, exit := none, deadline := none }
+                    wrote := c.wrote ++ ["position tps " ++ str tps] },
+           .error (.illegal "Timeout too short")) :=
+  getMove_short basis search c pl p rem tc hp hshort halive hgame hsize
+
 /-- **On a live position the client returns a move that is legal there.**  Composition of the above with
 the searcher contract `SearcherCanonical` (C04 + C03: on a live position the PV is non-empty and starts with a
 move `Position.Move` accepts that is a canonical move value): if the position the engine was told (`p'`, which
@@ -422,5 +438,9 @@ example :
     r.1.wrote = ["teinewgame 3", "position tps x3/x3/x3 1 1", "go movetime 1500 wtime 60000 btime 1 winc 2"] ∧
     toOpt r.2 = some ⟨1, 1, Facts.mtPlaceFlat, 0#32⟩ ∧ r.1.eng.deadline = some 1500000000 ∧
     r.1.unread = [] ∧ r.1.alive = true := by decide +kernel
+/-- the same call with a 500 µs increment: only the position line is written, the call fails -/
+example :
+    let r := teiGetMove exPeer exConn ⟨1⟩ (TPS.startPos 3 0) none (some { exTC with binc := 500000 })
+    r.1.wrote = ["teinewgame 3", "position tps x3/x3/x3 1 1"] ∧ toOpt r.2 = none ∧ r.1.alive = true := by decide +kernel
 
 end C17
